@@ -123,7 +123,7 @@ Nothing(got) == \A k \in DOMAIN got : Len(got[k][3]) = 0
 (* names of the outputs that disagree with the reference; {} = conforms *)
 Verdict(key, kind, set, uids, st, got) ==
     LET M == Msgs(key, set, uids)
-        exact == {got[k][1] : k \in {j \in DOMAIN got :
+        exact == {"Wrong_" \o got[k][1] : k \in {j \in DOMAIN got :
                       AsUids(got[j], uids) # M \/ Stray(got[j], uids) # {}}}
     IN
     IF Rejected(key, set, uids) THEN
@@ -131,7 +131,7 @@ Verdict(key, kind, set, uids, st, got) ==
             (* the command is rejected with BAD and nothing is touched *)
             (IF st = "BAD" \/ kind = "inner" THEN {} ELSE {"OutOfRangeNotBAD"})
             \cup (IF Nothing(got) THEN {} ELSE {"OutOfRangeTouched"})
-        ELSE IF st = "BAD" /\ Nothing(got) THEN {}
+        ELSE IF st # "OK" /\ Nothing(got) THEN {}    \* refused, one way or another
         ELSE IF st = "OK" /\ \A k \in DOMAIN got :
                   /\ SearchLower(set, uids) \subseteq AsUids(got[k], uids)
                   /\ AsUids(got[k], uids) \subseteq M
@@ -139,7 +139,7 @@ Verdict(key, kind, set, uids, st, got) ==
              THEN {}
         ELSE {"SearchOutOfRange"}
     ELSE IF st = "BAD" /\ HasZero(set) /\ Nothing(got) THEN {}
-    ELSE IF st # "OK" THEN {"Refused"}
+    ELSE IF st # "OK" THEN {"ValidSetRefused"}
     ELSE exact
 
 =============================================================================
